@@ -125,7 +125,20 @@ impl ErrSpec {
             }
         };
         if self.extended {
-            base.extended(b"injected detail")
+            // the device-dependent text varies with the code: ordinary, empty, and long texts (with quotes
+            // and semicolons) around and beyond the 255 characters SCPI-99 21.8 mentions for an item
+            static LONG: std::sync::OnceLock<[&'static [u8]; 3]> = std::sync::OnceLock::new();
+            let long = LONG.get_or_init(|| {
+                let mk = |n: usize| -> &'static [u8] { Box::leak((0..n).map(|i| match i % 29 { 7 => b'"', 13 => b';', 21 => b',', k => b'a' + (k % 26) as u8 }).collect::<Vec<u8>>().into_boxed_slice()) };
+                [mk(230), mk(300), mk(1000)]
+            });
+            match self.code.rem_euclid(8) {
+                1 => base.extended(b""),
+                3 => base.extended(long[0]),
+                5 => base.extended(long[1]),
+                7 => base.extended(long[2]),
+                _ => base.extended(b"injected detail"),
+            }
         } else {
             base
         }
